@@ -30,19 +30,22 @@ PLANS = {
         dict(name="nodes-D3", scenario="nodes", D=3, ops="node", obs=1, wide=0, lazy=2000),
     ],
     "quick": [
-        dict(name="g0-graph-D4", scenario="g0", D=4, ops="graph", obs=0, wide=0, lazy=1500),
         dict(name="g1-graph-D3", scenario="g1", D=3, ops="graph", obs=1, wide=0, lazy=1500),
         dict(name="nodes-D3", scenario="nodes", D=3, ops="node", obs=1, wide=0, lazy=1500),
+        dict(name="g0-graph-D4", scenario="g0", D=4, ops="graph", obs=0, wide=0, lazy=1500),
         dict(name="all-sim-D6", scenario="all", D=6, ops="all", obs=1, wide=0, simulate=12, lazy=1500),
     ],
+    # exhaustive to depth 4 per scenario (depth 5 is 1.3M histories for g0 alone), every operation on the
+    # mixed heap to depth 3 with the larger alphabets, random histories of depth 6 (with the complete
+    # fan-out of every state on the way) beyond
     "thorough": [
-        dict(name="g0-all-D4", scenario="g0", D=4, ops="all", obs=1, wide=0, lazy=20000),
-        dict(name="g1-graph-D4", scenario="g1", D=4, ops="graph", obs=1, wide=0, lazy=20000),
-        dict(name="nodes-D4", scenario="nodes", D=4, ops="node", obs=1, wide=0, lazy=20000),
-        dict(name="all-D3-wide", scenario="all", D=3, ops="all", obs=1, wide=1, lazy=20000),
-        dict(name="g0-sim-D6", scenario="g0", D=6, ops="all", obs=1, wide=1, simulate=12000, lazy=8000),
-        dict(name="g1-sim-D6", scenario="g1", D=6, ops="all", obs=1, wide=1, simulate=12000, lazy=8000),
-        dict(name="all-sim-D6", scenario="all", D=6, ops="all", obs=1, wide=1, simulate=12000, lazy=8000),
+        dict(name="nodes-D4", scenario="nodes", D=4, ops="node", obs=1, wide=0, lazy=10000),
+        dict(name="g0-all-D4", scenario="g0", D=4, ops="all", obs=1, wide=0, lazy=10000),
+        dict(name="all-D3-wide", scenario="all", D=3, ops="all", obs=1, wide=1, lazy=10000),
+        dict(name="g1-graph-D4", scenario="g1", D=4, ops="graph", obs=1, wide=0, lazy=10000),
+        dict(name="g0-sim-D6", scenario="g0", D=6, ops="all", obs=1, wide=1, simulate=40, lazy=5000),
+        dict(name="g1-sim-D6", scenario="g1", D=6, ops="all", obs=1, wide=1, simulate=40, lazy=5000),
+        dict(name="all-sim-D6", scenario="all", D=6, ops="all", obs=1, wide=1, simulate=30, lazy=5000),
     ],
 }
 
@@ -71,6 +74,11 @@ def explore(plan, seed, workers):
         res.generated = int(m.group(1)) if m else len(lines)
         res.distinct = len({json.dumps(x["ops"]) for x in lines})
     return res, base[0], lines
+
+
+def _explore_slim(plan, seed, workers):
+    res, base, lines = explore(plan, seed, workers)
+    return {"distinct": res.distinct, "generated": res.generated, "wall": res.wall}, base, lines
 
 
 # ---------------------------------------------------------------------------------------------
@@ -182,21 +190,32 @@ def confirm(scenario, base, hist, objs, klass, lazy):
 
 
 def report(ctx, findings, bases):
+    """Per witness class: re-execute candidate histories (shortest first) on fresh objects along the single
+    history; report up to 3 that reproduce.  A class seen only with shared prefix objects (the culprit
+    operation sits in another branch of the trie) is still reported, marked as such."""
     by = {}
     for f in findings:
         by.setdefault(f["class"], []).append(f)
     for klass in sorted(by):
         fs = sorted(by[klass], key=lambda f: (len(f["detail"]["history"]), R.dumps(f["detail"]["history"])))
         ctx.bump("findings:" + klass, len(fs))
-        for f in fs[:3]:
-            hist = f["detail"]["history"]
-            base = bases[f["plan"]]
-            objs = f["detail"]["objects"]
+        seen, confirmed, unconfirmed = set(), [], []
+        for f in fs:
+            key = (f["scenario"], f.get("mode"), R.dumps(f["detail"]["history"]))
+            if key in seen:
+                continue
+            seen.add(key)
+            if len(seen) > 12 or len(confirmed) >= 3:
+                break
             lazy = f.get("mode") == "lazy"
-            ok = confirm(f["scenario"], base, hist, objs, klass, lazy)
-            wit = {"scenario": f["scenario"], "plan": f["plan"], "mode": "lazy" if lazy else "eager", "base": base,
-                   "history": hist, "objects": objs, "finding": f, "confirmed_on_fresh_objects": ok}
-            ctx.violation(klass, wit, ("" if ok else "[only with shared prefix objects] ") + f["summary"])
+            ok = confirm(f["scenario"], bases[f["plan"]], f["detail"]["history"], f["detail"]["objects"], klass, lazy)
+            (confirmed if ok else unconfirmed).append(f)
+        for f in confirmed or unconfirmed[:1]:
+            lazy = f.get("mode") == "lazy"
+            wit = {"scenario": f["scenario"], "plan": f["plan"], "mode": "lazy" if lazy else "eager",
+                   "base": bases[f["plan"]], "history": f["detail"]["history"], "objects": f["detail"]["objects"],
+                   "finding": f, "confirmed_on_fresh_objects": bool(confirmed)}
+            ctx.violation(klass, wit, ("" if confirmed else "[seen only with shared prefix objects] ") + f["summary"])
 
 
 # ---------------------------------------------------------------------------------------------
@@ -298,43 +317,46 @@ def run(tier, seed):
     ctx = Ctx(PID, tier, seed, "model_checking")
     rng = random.Random(seed)
     plans = PLANS[tier]
-    t0 = time.time()
-    # TLC: all plans concurrently (separate JVMs)
-    import concurrent.futures as cf
+    # TLC: up to 4 plans concurrently (separate JVMs, started from forked helper processes so that the
+    # replay of a finished plan overlaps with the exploration of the next ones)
     per = max(2, NPROC // min(len(plans), 4))
-    with cf.ThreadPoolExecutor(min(len(plans), 4)) as ex:
-        futs = [ex.submit(explore, p, seed, per) for p in plans]
-        explored = [f.result() for f in futs]
-    t_tlc = time.time() - t0
     findings, bases, details = [], {}, []
     did_selftest = False
-    for plan, (res, base, lines) in zip(plans, explored):
-        ctx.add_tlc(result=res)
-        if plan["scenario"] == "g0" and not did_selftest:
-            selftests(ctx, base, lines)
-            did_selftest = True
-        t1 = time.time()
-        n, lazy_n, stats = replay_plan(ctx, plan, base, lines, rng, findings)
-        bases[plan["name"]] = base
-        ctx.count(n)
-        ctx.traces(n + lazy_n)
-        for x in lines:
-            if len(x["ops"]) >= 2:
-                ctx.distinct(plan["scenario"] + "|" + "|".join(R.opkey(o) for o in x["ops"]))
-        for k, v in stats.items():
-            ctx.bump(k, v)
-        ctx.bump("lazy_histories", lazy_n)
-        details.append({"plan": plan["name"], "tlc_distinct_states": res.distinct, "tlc_wall_s": round(res.wall, 1),
-                        "histories": n, "lazy_histories": lazy_n, "replay_wall_s": round(time.time() - t1, 1),
-                        "simulate": bool(plan.get("simulate"))})
+    sample = None
+    with mp.get_context("fork").Pool(min(len(plans), 4)) as tlc_pool:
+        futs = [tlc_pool.apply_async(_explore_slim, (p, seed, per)) for p in plans]
+        for plan, fut in zip(plans, futs):
+            st, base, lines = fut.get()
+            ctx.add_tlc(stats={"states": st["distinct"], "transitions": st["generated"]})
+            ctx.bump("tlc_wall_s_sum", round(st["wall"], 1))
+            if plan["scenario"] == "g0" and not did_selftest:
+                selftests(ctx, base, lines)
+                did_selftest = True
+            t1 = time.time()
+            n, lazy_n, stats = replay_plan(ctx, plan, base, lines, rng, findings)
+            bases[plan["name"]] = base
+            ctx.count(n)
+            ctx.traces(n + lazy_n)
+            for x in lines:
+                if len(x["ops"]) >= 2:
+                    ctx.distinct(plan["scenario"] + "|" + "|".join(R.opkey(o) for o in x["ops"]))
+            for k, v in stats.items():
+                ctx.bump(k, v)
+            ctx.bump("lazy_histories", lazy_n)
+            details.append({"plan": plan["name"], "tlc_distinct_states": st["distinct"], "tlc_wall_s": round(st["wall"], 1),
+                            "histories": n, "lazy_histories": lazy_n, "replay_wall_s": round(time.time() - t1, 1),
+                            "simulate": bool(plan.get("simulate")), "depth_bound": plan["D"]})
+            if sample is None:
+                mid = [x for x in lines if len(x["ops"]) == 3]
+                if mid:
+                    sample = {"history": mid[len(mid) // 2]["ops"], "object_created": mid[len(mid) // 2]["obj"]}
+            del lines
     if not did_selftest:
         raise RuntimeError("no g0 plan: binding self-tests did not run")
-    mid = [x for x in explored[0][2] if len(x["ops"]) == 3]
-    if mid:
-        ctx.sample({"history": mid[len(mid) // 2]["ops"], "object_created": mid[len(mid) // 2]["obj"]})
+    if sample:
+        ctx.sample(sample)
     _JOB.clear()
     report(ctx, findings, bases)
-    ctx.notes["tlc_wall_s"] = round(t_tlc, 1)
     ctx.assumptions += [
         "node bodies are harness-generated pure string functions; the catalogue (G0: 3-node DAG with a default, G1: 2-node cycle with a route gate and a tail, F: 2-input function node, extras Z, W) is the same in GraphAlgebra.tla and c07_replay.py",
         "TLC checked on the model: AppendOnly (action property), Independent (object = function of its derivation chain), OneNew, WellFormed",
